@@ -3,7 +3,7 @@
    (C05), lenient loading is filtering (C17). *)
 From Coq Require Import Ascii ZifyBool.
 From Cassis Require Import Base Offsets OffsetsProofs.
-From Cassis Require Import Heap Schema Canon Lex XmiDoc XmiLoad.
+From Cassis Require Import Heap Schema Canon Lex LexProofs XmiDoc XmiLoad.
 Open Scope Z_scope.
 Open Scope list_scope.
 
@@ -1423,3 +1423,508 @@ Proof.
   eapply (post_elements_dec pf s sofas fss views objs Hd ti fd k e); eauto. apply (tk_sa _ _ Hti).
 Qed.
 End PerFeature.
+(* ================================================================================================ C17 *)
+Section Lenient.
+Variable pf : string -> option flt.
+
+Definition not_tnf {A} (r : res A) : Prop := r <> Err ETypeNotFound.
+Lemma bind_not_tnf {A B} (r : res A) (f : A -> res B) : not_tnf r -> (forall a, not_tnf (f a)) -> not_tnf (bind r f).
+Proof. unfold not_tnf. destruct r as [a|x|]; cbn [bind]; intros H1 H2; [apply H2| |discriminate]. intros E. apply H1. inversion E. reflexivity. Qed.
+Lemma mapM_not_tnf {A B} (f : A -> res B) l : (forall x, not_tnf (f x)) -> not_tnf (mapM f l).
+Proof.
+  intros H. induction l as [|x r IH]; cbn [mapM]; [discriminate|].
+  apply bind_not_tnf; [apply H|]. intros y. apply bind_not_tnf; [exact IH|]. intros ys. discriminate.
+Qed.
+Lemma int_attr_not_tnf a : not_tnf (int_attr a).
+Proof. unfold int_attr, not_tnf. destruct (s2z a); discriminate. Qed.
+Lemma conv_int_not_tnf o : not_tnf (conv_int o).
+Proof. unfold conv_int, not_tnf. destruct o as [t|]; [destruct (s2z t)|]; discriminate. Qed.
+Lemma conv_flt_not_tnf o : not_tnf (conv_flt pf o).
+Proof. unfold conv_flt, not_tnf. destruct o as [t|]; [destruct (pf t)|]; discriminate. Qed.
+Lemma toks_of_not_tnf v : not_tnf (toks_of v).
+Proof. unfold not_tnf. destruct v; cbn; discriminate. Qed.
+Lemma parse_prim_list_not_tnf r v : not_tnf (parse_prim_list pf r v).
+Proof.
+  unfold parse_prim_list.
+  destruct (String.eqb r "uima.cas.IntegerList");
+    [apply bind_not_tnf; [apply toks_of_not_tnf|]; intros t; apply bind_not_tnf; [apply mapM_not_tnf, conv_int_not_tnf|]; intros; discriminate|].
+  destruct (String.eqb r "uima.cas.FloatList");
+    [apply bind_not_tnf; [apply toks_of_not_tnf|]; intros t; apply bind_not_tnf; [apply mapM_not_tnf, conv_flt_not_tnf|]; intros; discriminate|].
+  destruct (String.eqb r "uima.cas.StringList"); [apply bind_not_tnf; [apply toks_of_not_tnf|]; intros; discriminate|discriminate].
+Qed.
+Lemma intify_not_tnf names : forall a, not_tnf (intify names a).
+Proof.
+  induction names as [|n r IH]; intros a; cbn [intify]; [discriminate|].
+  destruct (alookup n a) as [[]|]; try discriminate; try apply IH.
+  apply bind_not_tnf; [apply int_attr_not_tnf|]. intros z. apply IH.
+Qed.
+Lemma wrap_kids_not_tnf feats kids : forall a, not_tnf (wrap_kids pf feats kids a).
+Proof.
+  induction kids as [|[n l] r IH]; intros a; cbn [wrap_kids]; [discriminate|].
+  destruct (fd_find feats n) as [fd|]; [|discriminate]. apply bind_not_tnf; [|intros; apply IH].
+  destruct (is_prim_list_name (fd_range fd)); [|discriminate].
+  apply bind_not_tnf; [apply parse_prim_list_not_tnf|]. intros; discriminate.
+Qed.
+Lemma parse_fs_not_tnf s e ti : sch_find s (reader_tname (x_ns e) (x_tag e)) = Some ti -> not_tnf (parse_fs pf s e).
+Proof.
+  intros Hf. unfold parse_fs, parse_fs_with, get_type_exact. rewrite Hf. cbn [bind].
+  apply bind_not_tnf.
+  { destruct (alookup A_ID _) as [[]|]; try discriminate. apply int_attr_not_tnf. }
+  intros i. apply bind_not_tnf; [destruct (memb T_ANNOTATION_BASE (ti_anc ti)); [apply intify_not_tnf|discriminate]|].
+  intros a2. apply bind_not_tnf; [destruct (is_prim_array_name _); [discriminate|apply wrap_kids_not_tnf]|].
+  intros a3. unfold mk_obj, not_tnf. destruct (forallb _ a3); discriminate.
+Qed.
+
+(* an element of unknown type is one the type lookup refuses; nothing else raises TypeNotFoundError *)
+Lemma parse_fs_tnf_iff s e : parse_fs pf s e = Err ETypeNotFound <-> sch_find s (reader_tname (x_ns e) (x_tag e)) = None.
+Proof.
+  split.
+  - intros H. destruct (sch_find s (reader_tname (x_ns e) (x_tag e))) as [ti|] eqn:E; [|reflexivity].
+    exfalso. exact (parse_fs_not_tnf s e ti E H).
+  - intros H. unfold parse_fs, parse_fs_with, get_type_exact. rewrite H. reflexivity.
+Qed.
+
+Lemma step1_strict_of_lenient s st e st1 : step1 pf s true st e = Ok st1 ->
+  (unknown s e = true /\ step1 pf s false st e = Err ETypeNotFound) \/
+  (unknown s e = false /\ step1 pf s false st e = Ok st1).
+Proof.
+  unfold step1, step1_with, unknown, is_other. destruct (is_sofa e) eqn:Es; [intros H; right; auto|].
+  destruct (is_view e) eqn:Ev; [intros H; right; auto|]. cbn [orb negb andb].
+  fold (parse_fs pf s e).
+  destruct (sch_find s (reader_tname (x_ns e) (x_tag e))) as [ti|] eqn:Ef.
+  - pose proof (parse_fs_not_tnf s e ti Ef) as Hn. destruct (parse_fs pf s e) as [o|x|]; intros H; right; split; auto.
+    destruct x; try exact H. exfalso. apply Hn. reflexivity.
+  - rewrite (proj2 (parse_fs_tnf_iff s e) Ef). intros _. left. auto.
+Qed.
+
+Theorem strict_raises s d : forall st st',
+  pass1 pf s true st d = Ok st' -> existsb (unknown s) d = true -> pass1 pf s false st d = Err ETypeNotFound.
+Proof.
+  unfold pass1. induction d as [|e r IH]; intros st st' H Hex; [discriminate|]. cbn [pass1_with existsb] in *.
+  apply bind_ok in H as (st1 & H1 & H). fold (step1 pf s true st e) in H1. fold (step1 pf s false st e).
+  destruct (step1_strict_of_lenient s st e st1 H1) as [[Hu Hs]|[Hu Hs]]; rewrite Hs; cbn [bind]; [reflexivity|].
+  rewrite Hu in Hex. cbn [orb] in Hex. eapply IH; eauto.
+Qed.
+Corollary load_strict_raises s d st' :
+  pass1 pf s true p1_init d = Ok st' -> existsb (unknown s) d = true -> load_xmi pf s false d = Err ETypeNotFound.
+Proof.
+  intros H Hex. unfold load_xmi, load_xmi_with. fold (pass1 pf s false p1_init d).
+  rewrite (strict_raises s d _ _ H Hex). reflexivity.
+Qed.
+End Lenient.
+Section Lenient2.
+Variable pf : string -> option flt.
+
+(* every object the reader builds has a type of the type system: the guard of Cas.add never fires while loading *)
+Definition objs_typed (s : schema) (objs : list (xid * lobj)) : Prop :=
+  forall k o, In (k, o) objs -> contains_exact s (lo_type o) = true.
+Lemma zlookup_in {V} k (l : list (Z * V)) v : zlookup k l = Some v -> exists k', In (k', v) l.
+Proof.
+  induction l as [|[k0 v0] r IH]; cbn [zlookup]; [discriminate|]. destruct (k =? k0).
+  - intros H. inversion H; subst. exists k0. left. reflexivity.
+  - intros H. destruct (IH H) as (k' & Hin). exists k'. right. exact Hin.
+Qed.
+Lemma zset_in {V} k (v : V) l k' v' : In (k', v') (zset k v l) -> v' = v \/ In (k', v') l.
+Proof.
+  induction l as [|[k0 v0] r IH]; cbn [zset In].
+  - intros [H|[]]. inversion H. auto.
+  - destruct (k =? k0); cbn [In].
+    + intros [H|H]; [inversion H; auto|auto].
+    + intros [H|H]; [auto|]. apply IH in H. tauto.
+Qed.
+Lemma sch_find_contains s n ti : sch_find s n = Some ti -> contains_exact s (ti_name ti) = true.
+Proof.
+  unfold contains_exact. induction s as [|t r IH]; cbn [sch_find map memb]; [discriminate|].
+  destruct (String.eqb n (ti_name t)) eqn:E.
+  - intros H. inversion H; subst. rewrite String.eqb_refl. reflexivity.
+  - intros H. rewrite (IH H). apply orb_true_r.
+Qed.
+Lemma add_guard_typed s b tn : contains_exact s tn = true -> add_guard s b tn = Ok tt.
+Proof. unfold add_guard. intros ->. rewrite andb_false_r. reflexivity. Qed.
+
+Lemma add_member_flag s name objs m : objs_typed s objs ->
+  add_member s true name objs m = add_member s false name objs m /\
+  (forall objs', add_member s false name objs m = Ok objs' -> objs_typed s objs').
+Proof.
+  intros Ht. unfold add_member. destruct (zlookup m objs) as [o|] eqn:El; [|split; [reflexivity|discriminate]].
+  destruct (zlookup_in _ _ _ El) as (k' & Hin). pose proof (Ht _ _ Hin) as Hc.
+  rewrite !(add_guard_typed s _ _ Hc). cbn [bind]. split; [reflexivity|].
+  destruct (sch_find s (lo_type o)) as [ti|]; [|discriminate]. intros objs' H. inversion H; subst objs'.
+  destruct (has_feat ti "sofa"); [|exact Ht]. intros k o' Hin'. apply zset_in in Hin' as [->|Hin']; [exact Hc|eapply Ht; eauto].
+Qed.
+Lemma add_members_flag s name lids ms : forall objs added, objs_typed s objs ->
+  add_members s true name lids ms objs added = add_members s false name lids ms objs added /\
+  (forall r, add_members s false name lids ms objs added = Ok r -> objs_typed s (fst r)).
+Proof.
+  induction ms as [|m r IH]; intros objs added Ht; cbn [add_members].
+  - split; [reflexivity|]. intros x H. inversion H. exact Ht.
+  - destruct (memZ m lids); [apply IH; exact Ht|].
+    destruct (add_member_flag s name objs m Ht) as [E P]. rewrite E.
+    destruct (add_member s false name objs m) as [objs'| |]; cbn [bind]; try (split; [reflexivity|discriminate]).
+    apply IH. apply P. reflexivity.
+Qed.
+Lemma rewire_type k name o : lo_type (rewire k name o) = lo_type o.
+Proof. unfold rewire. destruct (alookup "sofa" (lo_slots o)) as [[]|]; try reflexivity. destruct (_ =? _); reflexivity. Qed.
+Lemma view_step_flag s pv lids st kso : objs_typed s (snd st) ->
+  view_step s true pv lids st kso = view_step s false pv lids st kso /\
+  (forall st', view_step s false pv lids st kso = Ok st' -> objs_typed s (snd st')).
+Proof.
+  destruct st as [views objs]. cbn [snd]. intros Ht. unfold view_step.
+  match goal with |- (do v <- ?X ;; _) = _ /\ _ => destruct X as [views1| |] end; cbn [bind]; try (split; [reflexivity|discriminate]).
+  destruct (add_members_flag s (ps_name (snd kso)) lids
+              (match zlookup (ps_id (snd kso)) pv with Some ms => ms | None => [] end) objs [] Ht) as [E P].
+  rewrite E. destruct (add_members s false _ _ _ objs []) as [oa| |]; cbn [bind]; try (split; [reflexivity|discriminate]).
+  split; [reflexivity|]. destruct (alookup (ps_name (snd kso)) views1); [|discriminate]. intros st' H. inversion H; subst st'. cbn [snd].
+  intros k o Hin. apply in_map_iff in Hin as ([k0 o0] & Heq & Hin0). inversion Heq; subst. cbn [fst snd]. rewrite rewire_type.
+  eapply (P oa eq_refl); eauto.
+Qed.
+Lemma view_loop_flag s pv lids sofas : forall st, objs_typed s (snd st) ->
+  view_loop s true pv lids sofas st = view_loop s false pv lids sofas st.
+Proof.
+  induction sofas as [|kso r IH]; intros st Ht; cbn [view_loop]; [reflexivity|].
+  destruct (view_step_flag s pv lids st kso Ht) as [E P]. rewrite E.
+  destruct (view_step s false pv lids st kso) as [st'| |]; cbn [bind]; try reflexivity. apply IH. apply P. reflexivity.
+Qed.
+End Lenient2.
+Section Lenient3.
+Variable pf : string -> option flt.
+
+Lemma parse_fs_typed s e o : parse_fs pf s e = Ok o -> contains_exact s (lo_type o) = true.
+Proof.
+  unfold parse_fs, parse_fs_with, get_type_exact. destruct (sch_find s (reader_tname (x_ns e) (x_tag e))) as [ti|] eqn:Ef; [|discriminate].
+  cbn [bind]. intros H. apply bind_ok in H as (i & _ & H). apply bind_ok in H as (a2 & _ & H). apply bind_ok in H as (a3 & _ & H).
+  unfold mk_obj in H. destruct (forallb _ a3); [|discriminate]. inversion H; subst o. cbn [lo_type]. eapply sch_find_contains; eauto.
+Qed.
+Lemma step1_typed s b st e st' : objs_typed s (p_fss st) -> step1 pf s b st e = Ok st' -> objs_typed s (p_fss st').
+Proof.
+  intros Ht. unfold step1, step1_with. destruct (is_sofa e).
+  { intros H. apply bind_ok in H as (so & _ & H). inversion H; subst. exact Ht. }
+  destruct (is_view e).
+  { intros H. apply bind_ok in H as (pv & _ & H). inversion H; subst. exact Ht. }
+  fold (parse_fs pf s e). destruct (parse_fs pf s e) as [o|x|] eqn:Ep; [| |discriminate].
+  - intros H. inversion H; subst st'. cbn [p_fss]. intros k o' Hin. apply zset_in in Hin as [->|Hin]; [eapply parse_fs_typed; eauto|eapply Ht; eauto].
+  - destruct x; try discriminate. destruct b; [|discriminate]. destruct (xattr e A_ID) as [a|]; [|intros H; inversion H; subst; exact Ht].
+    destruct (String.eqb a ""); [intros H; inversion H; subst; exact Ht|]. intros H. apply bind_ok in H as (i & _ & H). inversion H; subst. exact Ht.
+Qed.
+Lemma pass1_typed s b d : forall st st', objs_typed s (p_fss st) -> pass1 pf s b st d = Ok st' -> objs_typed s (p_fss st').
+Proof.
+  unfold pass1. induction d as [|e r IH]; intros st st' Ht H; cbn [pass1_with] in H; [inversion H; subst; exact Ht|].
+  apply bind_ok in H as (st1 & H1 & H). eapply IH; [|exact H]. eapply step1_typed; eauto.
+Qed.
+Lemma mapM_keep_type (f : lobj -> res lobj) objs objs' :
+  (forall o o', f o = Ok o' -> lo_type o' = lo_type o) ->
+  mapM (fun ko => do o <- f (snd ko) ;; Ok (fst ko, o)) objs = Ok objs' ->
+  forall s, objs_typed s objs -> objs_typed s objs'.
+Proof.
+  intros Hf H s Ht k o' Hin. destruct (mapM_In _ _ _ _ H Hin) as ([k0 o0] & Hin0 & Hx). cbn [fst snd] in Hx.
+  apply bind_ok in Hx as (o1 & Ho1 & Hx). inversion Hx; subst. rewrite (Hf _ _ Ho1). eapply Ht; eauto.
+Qed.
+Lemma post_obj_type s sofas fss o o' : post_obj pf s sofas fss o = Ok o' -> lo_type o' = lo_type o.
+Proof.
+  unfold post_obj. destruct (sch_find s (lo_type o)); [|discriminate]. intros H. apply bind_ok in H as (sl & _ & H). inversion H. reflexivity.
+Qed.
+Lemma conv_obj_type s sofas o o' : conv_obj s sofas o = Ok o' -> lo_type o' = lo_type o.
+Proof.
+  unfold conv_obj. destruct (isa s (lo_type o) T_ANNOTATION); [|intros H; inversion H; reflexivity].
+  destruct (lslot o "sofa"); try discriminate; [intros H; inversion H; reflexivity|].
+  destruct (zlookup k sofas); [|discriminate]. intros H. inversion H. reflexivity.
+Qed.
+
+Lemma step1_known s st e : unknown s e = false -> step1 pf s true st e = step1 pf s false st e.
+Proof.
+  unfold step1, step1_with, unknown, is_other. destruct (is_sofa e); [reflexivity|]. destruct (is_view e); [reflexivity|].
+  cbn [orb negb andb]. fold (parse_fs pf s e).
+  destruct (sch_find s (reader_tname (x_ns e) (x_tag e))) as [ti|] eqn:Ef; [|discriminate]. intros _.
+  pose proof (parse_fs_not_tnf pf s e ti Ef) as Hn. destruct (parse_fs pf s e) as [o|x|]; try reflexivity.
+  destruct x; try reflexivity. exfalso. apply Hn. reflexivity.
+Qed.
+Lemma pass1_known s d : forallb (fun e => negb (unknown s e)) d = true -> forall st, pass1 pf s true st d = pass1 pf s false st d.
+Proof.
+  unfold pass1. induction d as [|e r IH]; intros H st; cbn [pass1_with forallb] in *; [reflexivity|].
+  apply andb_true_iff in H as [H1 H2]. apply negb_true_iff in H1.
+  fold (step1 pf s true st e). fold (step1 pf s false st e). rewrite (step1_known s st e H1).
+  destruct (step1 pf s false st e); cbn [bind]; try reflexivity. apply IH. exact H2.
+Qed.
+
+(* the tail of load_xmi after the first loop *)
+Definition load_tail (s : schema) (lenient : bool) (st : p1) : res lcas :=
+  do objs <- pass2 pf s (p_sofas st) (p_fss st) ;;
+  do sofas <- mapM (resolve_arr (p_fss st)) (p_sofas st) ;;
+  do objs1 <- mapM (fun ko => do o <- conv_obj s sofas (snd ko) ;; Ok (fst ko, o)) objs ;;
+  do vo <- view_loop s lenient (p_views st) (p_lids st) sofas ([(INITIAL, initial_view)], objs1) ;;
+  let '(views, objs2) := vo in
+  if existsb (fun kso => String.eqb (ps_name (snd kso)) INITIAL) (p_sofas st) then
+    Ok (mkLc views objs2 (p_maxid st + 1) (p_maxnum st + 1) lenient)
+  else
+    match alookup INITIAL views with
+    | Some v =>
+      let so := lv_sofa v in
+      Ok (mkLc (aset INITIAL (mkLv (mkLs (p_maxid st + 1) (p_maxnum st + 1) (ls_name so) (ls_text so) (ls_mime so)
+                                          (ls_uri so) (ls_arr so)) (lv_members v)) views)
+               objs2 (p_maxid st + 2) (p_maxnum st + 2) lenient)
+    | None => Err EKey
+    end.
+Lemma load_xmi_tail s lenient d : load_xmi pf s lenient d = do st <- pass1 pf s lenient p1_init d ;; load_tail s lenient st.
+Proof. reflexivity. Qed.
+Lemma load_tail_flag s st : objs_typed s (p_fss st) -> load_tail s true st = with_lenient true (load_tail s false st).
+Proof.
+  intros Ht. unfold load_tail. unfold pass2.
+  destruct (mapM (fun ko => do o <- post_obj pf s (p_sofas st) (p_fss st) (snd ko) ;; Ok (fst ko, o)) (p_fss st)) as [objs| |] eqn:E2;
+    cbn [bind]; try reflexivity.
+  destruct (mapM (resolve_arr (p_fss st)) (p_sofas st)) as [sofas| |]; cbn [bind]; try reflexivity.
+  destruct (mapM (fun ko => do o <- conv_obj s sofas (snd ko) ;; Ok (fst ko, o)) objs) as [objs1| |] eqn:E3; cbn [bind]; try reflexivity.
+  assert (Ht1 : objs_typed s objs1).
+  { eapply (mapM_keep_type (conv_obj s sofas)); [apply conv_obj_type|exact E3|].
+    eapply (mapM_keep_type (post_obj pf s (p_sofas st) (p_fss st))); [apply post_obj_type|exact E2|exact Ht]. }
+  rewrite (view_loop_flag s (p_views st) (p_lids st) sofas ([(INITIAL, initial_view)], objs1) Ht1).
+  destruct (view_loop s false (p_views st) (p_lids st) sofas ([(INITIAL, initial_view)], objs1)) as [[views objs2]| |]; cbn [bind]; try reflexivity.
+  destruct (existsb _ (p_sofas st)); [reflexivity|]. destruct (alookup INITIAL views); reflexivity.
+Qed.
+
+Theorem leniency_noninterference s d :
+  forallb (fun e => negb (unknown s e)) d = true -> load_xmi pf s true d = with_lenient true (load_xmi pf s false d).
+Proof.
+  intros H. rewrite !load_xmi_tail, (pass1_known s d H).
+  destruct (pass1 pf s false p1_init d) as [st| |] eqn:E; cbn [bind]; try reflexivity.
+  apply load_tail_flag. eapply pass1_typed; [|exact E]. intros k o [].
+Qed.
+End Lenient3.
+Section Lenient4.
+Variable pf : string -> option flt.
+
+(* ---- tokens of a members attribute ---- *)
+Lemma no_ws_app a b : no_ws (a ++ b)%string = no_ws a && no_ws b.
+Proof. induction a as [|c r IH]; cbn [append no_ws]; [reflexivity|]. rewrite IH, andb_assoc. reflexivity. Qed.
+Lemma split_aux_ok s : forall cur, no_ws cur = true -> Forall tok_ok (split_ws_aux cur s).
+Proof.
+  induction s as [|c r IH]; intros cur Hc; cbn [split_ws_aux].
+  - destruct (String.eqb cur "") eqn:E; [constructor|]. constructor; [|constructor]. split; [|exact Hc].
+    intros ->. discriminate.
+  - destruct (is_ws c) eqn:Ew.
+    + destruct (String.eqb cur "") eqn:E; [apply IH; reflexivity|]. constructor; [|apply IH; reflexivity].
+      split; [intros ->; discriminate|exact Hc].
+    + apply IH. rewrite no_ws_app, Hc. cbn [no_ws]. rewrite Ew. reflexivity.
+Qed.
+Lemma split_ws_ok a : Forall tok_ok (split_ws a).
+Proof. apply split_aux_ok. reflexivity. Qed.
+Lemma Forall_filter {A} (P : A -> Prop) (p : A -> bool) l : Forall P l -> Forall P (filter p l).
+Proof. induction 1; cbn [filter]; [constructor|]. destruct (p x); [constructor|]; assumption. Qed.
+
+Definition filterv (ids : list xid) (ms : list xid) : list xid := filter (fun m => negb (memZ m ids)) ms.
+Lemma mapM_int_filter ids toks :
+  mapM int_attr (filter (keep_tok ids) toks) = res_map (filterv ids) (mapM int_attr toks).
+Proof.
+  induction toks as [|t r IH]; [reflexivity|]. cbn [filter mapM]. unfold keep_tok at 1, int_attr at 2.
+  destruct (s2z t) as [i|] eqn:Es; cbn [bind].
+  - destruct (memZ i ids) eqn:Em; cbn [negb].
+    + rewrite IH. destruct (mapM int_attr r); cbn [bind res_map]; try reflexivity. unfold filterv. cbn [filter]. rewrite Em. reflexivity.
+    + cbn [mapM]. unfold int_attr at 1. rewrite Es. cbn [bind]. rewrite IH.
+      destruct (mapM int_attr r); cbn [bind res_map]; try reflexivity. unfold filterv. cbn [filter]. rewrite Em. reflexivity.
+  - cbn [mapM]. unfold int_attr at 1. rewrite Es. reflexivity.
+Qed.
+
+(* ---- a View element with the dropped ids taken out of its members ---- *)
+Lemma alookup_map_members (f : string -> string) k (l : list (string * string)) :
+  alookup k (map (fun kv => if String.eqb (fst kv) "members" then (fst kv, f (snd kv)) else kv) l)
+  = if String.eqb k "members" then option_map f (alookup k l) else alookup k l.
+Proof.
+  induction l as [|[k0 v0] r IH]; cbn [map alookup fst snd]; [destruct (String.eqb k "members"); reflexivity|].
+  destruct (String.eqb k0 "members") eqn:E0; cbn [alookup fst snd]; destruct (String.eqb k k0) eqn:E; rewrite ?IH.
+  - apply String.eqb_eq in E, E0. subst. cbn. reflexivity.
+  - reflexivity.
+  - apply String.eqb_eq in E. subst k0. rewrite E0. reflexivity.
+  - reflexivity.
+Qed.
+Lemma parse_view_drop ids e : is_view e = true ->
+  parse_view (drop_members ids e) = res_map (fun v => (fst v, filterv ids (snd v))) (parse_view e).
+Proof.
+  intros Hv. unfold drop_members. rewrite Hv. unfold parse_view, req_int, xattr. cbn [x_attrs].
+  rewrite !(alookup_map_members (fun a => join (filter (keep_tok ids) (split_ws a)))). change (String.eqb "sofa" "members") with false. cbv iota.
+  change (String.eqb "members" "members") with true. cbv iota.
+  destruct (alookup "sofa" (x_attrs e)) as [a|]; [|reflexivity].
+  destruct (int_attr a) as [so| |]; cbn [bind res_map]; try reflexivity.
+  destruct (alookup "members" (x_attrs e)) as [m|]; cbn [option_map].
+  - rewrite (split_join _ (Forall_filter _ _ _ (split_ws_ok m))). rewrite mapM_int_filter.
+    destruct (mapM int_attr (split_ws m)); reflexivity.
+  - reflexivity.
+Qed.
+
+(* ---- the first loop: lenient on d versus strict on the filtered document ---- *)
+Definition p1_rel (ids : list xid) (sl ss : p1) : Prop :=
+  p_sofas ss = p_sofas sl /\ p_fss ss = p_fss sl /\ p_maxid ss = p_maxid sl /\ p_maxnum ss = p_maxnum sl /\
+  p_views ss = map (fun kv => (fst kv, filterv ids (snd kv))) (p_views sl) /\ p_lids ss = [].
+Definition dropd (s : schema) (ids : list xid) (d : xdoc) : xdoc :=
+  map (drop_members ids) (filter (fun e => negb (unknown s e)) d).
+Lemma zset_map_val {V W} (g : V -> W) k v (l : list (Z * V)) :
+  zset k (g v) (map (fun kv => (fst kv, g (snd kv))) l) = map (fun kv => (fst kv, g (snd kv))) (zset k v l).
+Proof.
+  induction l as [|[k0 v0] r IH]; cbn [map zset fst snd]; [reflexivity|]. destruct (k =? k0); cbn [map fst snd]; [reflexivity|].
+  rewrite IH. reflexivity.
+Qed.
+Lemma drop_members_kind ids e : is_sofa (drop_members ids e) = is_sofa e /\ is_view (drop_members ids e) = is_view e.
+Proof. unfold drop_members. destruct (is_view e) eqn:E; [|auto]. unfold is_sofa, is_view, is_cas in *. cbn [x_ns x_tag]. auto. Qed.
+Lemma drop_members_other ids e : is_view e = false -> drop_members ids e = e.
+Proof. unfold drop_members. intros ->. reflexivity. Qed.
+
+Lemma step1_rel s ids sl ss e : p1_rel ids sl ss -> unknown s e = false ->
+  match step1 pf s true sl e with
+  | Ok sl' => exists ss', step1 pf s false ss (drop_members ids e) = Ok ss' /\ p1_rel ids sl' ss' /\ p_lids sl' = p_lids sl
+  | Err x => step1 pf s false ss (drop_members ids e) = Err x
+  | OutOfFuel => step1 pf s false ss (drop_members ids e) = OutOfFuel
+  end.
+Proof.
+  intros (R1 & R2 & R3 & R4 & R5 & R6) Hu. rewrite (step1_known pf s sl e Hu).
+  destruct (drop_members_kind ids e) as [Ks Kv].
+  unfold step1, step1_with. rewrite Ks, Kv. destruct (is_sofa e) eqn:Es.
+  { assert (Hv : is_view e = false).
+    { destruct (is_view e) eqn:Ev; [|reflexivity]. destruct (view_not_others e Ev) as (H & _). congruence. }
+    rewrite (drop_members_other ids e Hv). destruct (parse_sofa e) as [so| |]; cbn [bind]; try reflexivity.
+    eexists. split; [reflexivity|]. rewrite R1, R3, R4. cbn. unfold p1_rel. cbn. repeat split; auto. }
+  destruct (is_view e) eqn:Ev.
+  { rewrite (parse_view_drop ids e Ev). destruct (parse_view e) as [[so ms]| |]; cbn [bind res_map fst snd]; try reflexivity.
+    eexists. split; [reflexivity|]. unfold p1_rel. cbn. repeat split; auto. rewrite R5.
+    apply (zset_map_val (filterv ids)). }
+  rewrite (drop_members_other ids e Ev). fold (parse_fs pf s e).
+  destruct (parse_fs pf s e) as [o|x|]; try reflexivity.
+  - eexists. split; [reflexivity|]. rewrite R2, R3. unfold p1_rel. cbn. repeat split; auto.
+  - destruct x; reflexivity.
+Qed.
+Lemma step1_unknown s sl e : unknown s e = true ->
+  (match xattr e A_ID with
+   | Some a => String.eqb a "" || match s2z a with Some _ => true | None => false end
+   | None => true end) = true ->
+  step1 pf s true sl e = Ok (mkP1 (p_sofas sl) (p_views sl) (p_fss sl) (dropped_id e ++ p_lids sl) (p_maxid sl) (p_maxnum sl)).
+Proof.
+  unfold unknown, is_other, step1, step1_with, dropped_id. intros Hu Hid. apply andb_true_iff in Hu as [Hk Hf].
+  apply negb_true_iff, orb_false_iff in Hk as [-> ->]. fold (parse_fs pf s e).
+  destruct (sch_find s (reader_tname (x_ns e) (x_tag e))) eqn:Ef; [discriminate|].
+  rewrite (proj2 (parse_fs_tnf_iff pf s e) Ef). destruct (xattr e A_ID) as [a|]; [|destruct sl; reflexivity].
+  destruct (String.eqb a ""); [destruct sl; reflexivity|]. cbn [orb] in Hid. unfold int_attr.
+  destruct (s2z a); [reflexivity|discriminate].
+Qed.
+
+Lemma pass1_rel s ids d : forall sl ss, p1_rel ids sl ss -> dropped_ids_okb s d = true ->
+  match pass1 pf s true sl d with
+  | Ok sl' => exists ss', pass1 pf s false ss (dropd s ids d) = Ok ss' /\ p1_rel ids sl' ss' /\
+                          p_lids sl' = (rev (dropped_ids s d) ++ p_lids sl)
+  | Err x => pass1 pf s false ss (dropd s ids d) = Err x
+  | OutOfFuel => pass1 pf s false ss (dropd s ids d) = OutOfFuel
+  end.
+Proof.
+  unfold pass1, dropd, dropped_ids, dropped_ids_okb. induction d as [|e r IH]; intros sl ss HR Hok; cbn [pass1_with filter map flat_map] in *.
+  - exists ss. auto.
+  - destruct (unknown s e) eqn:Hu; cbn [negb filter forallb flat_map map] in *.
+    + apply andb_true_iff in Hok as [Hid Hok].
+      change (step1_with pf get_type_exact s true sl e) with (step1 pf s true sl e). rewrite (step1_unknown s sl e Hu Hid). cbn [bind].
+      assert (HR' : p1_rel ids (mkP1 (p_sofas sl) (p_views sl) (p_fss sl) (dropped_id e ++ p_lids sl) (p_maxid sl) (p_maxnum sl)) ss).
+      { destruct HR as (R1 & R2 & R3 & R4 & R5 & R6). unfold p1_rel. cbn. repeat split; assumption. }
+      specialize (IH _ _ HR' Hok). destruct (pass1_with pf get_type_exact s true _ r) as [sl'| |]; auto.
+      destruct IH as (ss' & H1 & H2 & H3). exists ss'. split; [exact H1|split; [exact H2|]]. rewrite H3. cbn [p_lids].
+      rewrite rev_app_distr, <- app_assoc. f_equal. f_equal.
+      unfold dropped_id. destruct (xattr e A_ID) as [a|]; [|reflexivity].
+      destruct (String.eqb a ""); [reflexivity|]. destruct (s2z a); reflexivity.
+    + cbn [pass1_with]. pose proof (step1_rel s ids sl ss e HR Hu) as Hs.
+      change (step1_with pf get_type_exact s true sl e) with (step1 pf s true sl e).
+      change (step1_with pf get_type_exact s false ss (drop_members ids e)) with (step1 pf s false ss (drop_members ids e)).
+      destruct (step1 pf s true sl e) as [sl1| |]; cbn [bind].
+      * destruct Hs as (ss1 & Hs1 & HR1 & Hl1). specialize (IH _ _ HR1 Hok).
+        destruct (pass1_with pf get_type_exact s true sl1 r) as [sl'| |]; rewrite Hs1; cbn [bind]; auto.
+        destruct IH as (ss' & H1 & H2 & H3). exists ss'. rewrite H3, Hl1. auto.
+      * rewrite Hs. reflexivity.
+      * rewrite Hs. reflexivity.
+Qed.
+
+(* ---- the view loop: skipping remembered ids = loading member lists without them ---- *)
+Lemma add_members_lids s b name lids ms : forall objs added,
+  add_members s b name lids ms objs added = add_members s b name [] (filterv lids ms) objs added.
+Proof.
+  induction ms as [|m r IH]; intros objs added; cbn [add_members filterv filter]; [reflexivity|].
+  destruct (memZ m lids); cbn [negb]; [apply IH|]. cbn [add_members memZ].
+  destruct (add_member s b name objs m); cbn [bind]; try reflexivity. apply IH.
+Qed.
+Lemma add_members_ext s b name l1 l2 ms : (forall m, memZ m l1 = memZ m l2) -> forall objs added,
+  add_members s b name l1 ms objs added = add_members s b name l2 ms objs added.
+Proof.
+  intros H. induction ms as [|m r IH]; intros objs added; cbn [add_members]; [reflexivity|]. rewrite (H m).
+  destruct (memZ m l2); [apply IH|]. destruct (add_member s b name objs m); cbn [bind]; try reflexivity. apply IH.
+Qed.
+Lemma zlookup_map_val {V W} (g : V -> W) k (l : list (Z * V)) :
+  zlookup k (map (fun kv => (fst kv, g (snd kv))) l) = option_map g (zlookup k l).
+Proof. induction l as [|[k0 v0] r IH]; cbn [map zlookup fst snd]; [reflexivity|]. destruct (k =? k0); [reflexivity|exact IH]. Qed.
+Lemma view_step_lids s b pv lids ids st kso : (forall m, memZ m lids = memZ m ids) ->
+  view_step s b pv lids st kso = view_step s b (map (fun kv => (fst kv, filterv ids (snd kv))) pv) [] st kso.
+Proof.
+  intros H. destruct st as [views objs]. unfold view_step.
+  match goal with |- (do v <- ?X ;; _) = _ => destruct X as [views1| |] end; cbn [bind]; try reflexivity.
+  rewrite (zlookup_map_val (filterv ids)).
+  rewrite (add_members_ext s b (ps_name (snd kso)) lids ids _ H), add_members_lids.
+  destruct (zlookup (ps_id (snd kso)) pv); reflexivity.
+Qed.
+Lemma view_loop_lids s b pv lids ids sofas : (forall m, memZ m lids = memZ m ids) -> forall st,
+  view_loop s b pv lids sofas st = view_loop s b (map (fun kv => (fst kv, filterv ids (snd kv))) pv) [] sofas st.
+Proof.
+  intros H. induction sofas as [|kso r IH]; intros st; cbn [view_loop]; [reflexivity|].
+  rewrite (view_step_lids s b pv lids ids st kso H). destruct (view_step s b _ [] st kso); cbn [bind]; try reflexivity. apply IH.
+Qed.
+
+(* lenient loading = strict loading of the document without the elements of unknown type and without their ids in the
+   member lists; the result differs in the flag only *)
+Theorem lenient_is_filter s d : dropped_ids_okb s d = true ->
+  load_xmi pf s true d = with_lenient true (load_xmi pf s false (drop_unknown s d)).
+Proof.
+  intros Hok. rewrite !load_xmi_tail.
+  assert (HR : p1_rel (dropped_ids s d) p1_init p1_init) by (unfold p1_rel; cbn; repeat split; reflexivity).
+  pose proof (pass1_rel s (dropped_ids s d) d p1_init p1_init HR Hok) as H.
+  change (drop_unknown s d) with (dropd s (dropped_ids s d) d).
+  destruct (pass1 pf s true p1_init d) as [sl| |] eqn:El; cbn [bind].
+  - destruct H as (ss & Hs & (R1 & R2 & R3 & R4 & R5 & R6) & Hl). rewrite Hs. cbn [bind].
+    rewrite (load_tail_flag pf s sl) by (eapply pass1_typed; [|exact El]; intros k o []). f_equal.
+    unfold load_tail. rewrite R1, R2, R3, R4, R5, R6.
+    assert (Hm : forall m, memZ m (p_lids sl) = memZ m (dropped_ids s d)).
+    { intros m. rewrite Hl. cbn [p_lids p1_init]. rewrite app_nil_r. apply memZ_perm. apply Permutation_sym, Permutation_rev. }
+    destruct (pass2 pf s (p_sofas sl) (p_fss sl)); cbn [bind]; try reflexivity.
+    destruct (mapM (resolve_arr (p_fss sl)) (p_sofas sl)) as [sofas| |]; cbn [bind]; try reflexivity.
+    destruct (mapM _ a); cbn [bind]; try reflexivity.
+    rewrite (view_loop_lids s false (p_views sl) (p_lids sl) (dropped_ids s d) sofas Hm). reflexivity.
+  - rewrite H. reflexivity.
+  - rewrite H. reflexivity.
+Qed.
+
+(* ---- the flag of the loaded CAS and its view handles ---- *)
+Lemma load_xmi_flag s b d c : load_xmi pf s b d = Ok c -> lc_lenient c = b.
+Proof.
+  rewrite load_xmi_tail. intros H. apply bind_ok in H as (st & _ & H). unfold load_tail in H.
+  apply bind_ok in H as (objs & _ & H). apply bind_ok in H as (sofas & _ & H). apply bind_ok in H as (objs1 & _ & H).
+  apply bind_ok in H as ([views objs2] & _ & H).
+  destruct (existsb _ (p_sofas st)); [inversion H; reflexivity|]. destruct (alookup INITIAL views); inversion H; reflexivity.
+Qed.
+End Lenient4.
+
+Lemma derive_lenient h path : h_lenient (derive h path) = h_lenient h.
+Proof. revert h; induction path as [|n r IH]; intros h; cbn [derive]; [reflexivity|]. rewrite IH. reflexivity. Qed.
+Theorem lenient_persists pf s b d c path : load_xmi pf s b d = Ok c -> h_lenient (derive (cas_handle c) path) = b.
+Proof. intros H. rewrite derive_lenient. cbn. eapply load_xmi_flag; eauto. Qed.
+Theorem strict_add_refuses s h tn : h_lenient h = false -> contains_exact s tn = false -> handle_add s h tn = Err ERuntime.
+Proof. unfold handle_add, add_guard. intros -> ->. reflexivity. Qed.
+Theorem strict_add_accepts_own s h tn : contains_exact s tn = true -> handle_add s h tn = Ok tt.
+Proof. unfold handle_add. apply add_guard_typed. Qed.
+Theorem lenient_add_accepts s h tn : h_lenient h = true -> handle_add s h tn = Ok tt.
+Proof. unfold handle_add, add_guard. intros ->. reflexivity. Qed.
+(* regression witnesses for the repaired mechanisms *)
+Theorem copy_handle_old_refuted : exists h n, h_lenient h = true /\ h_lenient (copy_handle_old h n) = false.
+Proof. exists (mkH INITIAL true), "v". split; reflexivity. Qed.
+Definition ts_foo : schema := [mkTi "uima.cas.TOP" ["uima.cas.TOP"] []; mkTi "a.b.Foo" ["a.b.Foo"; "uima.cas.TOP"] [];
+                              mkTi "uima.cas.Sofa" ["uima.cas.Sofa"; "uima.cas.TOP"] []].
+Theorem contains_loose_refuted : exists s tn, contains_exact s tn = false /\ contains_loose s tn = true.
+Proof. exists ts_foo, "Foo". split; vm_compute; reflexivity. Qed.
+Definition doc_foo : xdoc :=
+  [mkX NS_CAS "Sofa" [(A_ID, "1"); ("sofaNum", "1"); ("sofaID", "_InitialView")] [];
+   mkX "http:///uima/noNamespace.ecore" "Foo" [(A_ID, "7")] [];
+   mkX NS_CAS "View" [("sofa", "1"); ("members", "7")] []].
+(* before 32a3d1b: an element of an undefined no-namespace type loads, in strict mode, as the type with that short name *)
+Theorem load_xmi_old_short_name_refuted :
+  exists s d, existsb (unknown s) d = true /\
+    match load_xmi_old (fun _ => None) s false d with Ok c => map (fun ko => lo_type (snd ko)) (lc_objs c) = ["a.b.Foo"] | _ => False end.
+Proof. exists ts_foo, doc_foo. split; vm_compute; reflexivity. Qed.
+Example load_xmi_strict_short_name : load_xmi (fun _ => None) ts_foo false doc_foo = Err ETypeNotFound.
+Proof. vm_compute. reflexivity. Qed.
